@@ -19,8 +19,13 @@ func Copy(source, dest string) error {
 	defer out.Close()
 	_, err = io.Copy(out, in)
 	cerr := out.Close()
+	if err == nil {
+		err = cerr
+	}
 	if err != nil {
+		/* Do not leave a partial file behind under the final name */
+		os.Remove(dest)
 		return err
 	}
-	return cerr
+	return nil
 }
